@@ -57,16 +57,16 @@ type vfC13Scenario struct {
 }
 
 type vfC13Case struct {
-	Scenario    string
-	Positions   int
-	Kinds       int
-	Iterations  int
-	Pairs       int
-	Commands    []string
-	Provider    string
-	Rotate      bool
-	CookieName  string
-	Secret      string
+	Scenario   string
+	Positions  int
+	Kinds      int
+	Iterations int
+	Pairs      int
+	Commands   []string
+	Provider   string
+	Rotate     bool
+	CookieName string
+	Secret     string
 }
 
 func vfSHAEntry(user, pw string) string {
